@@ -169,7 +169,9 @@ package bttest
 //@   callsite copyRow ensures rowOK(r) && famSep(r.Families)
 //@   callsite copyRow ensures colSep(r)
 //@   callsite copyRow ensures rowDesc(r)
-//@   callsite copyRow ensures rowsApart(r, result)
+//@   callsite copyRow ensures rowsApartF(r, result)
+//@   callsite copyRow ensures rowsApartC(r, result)
+//@   callsite copyRow ensures rowsApartK(r, result)
 //@   callsite filterRow requires arg0 == req.PredicateFilter && arg1 == nr && arg1 != r
 //@   callsite filterRow ensures rowOK(r) && famSep(r.Families)
 //@   callsite filterRow ensures colSep(r)
@@ -218,19 +220,27 @@ package bttest
 //@   loop 1 invariant rowDesc(r)
 //@   loop 1 invariant rowOK(resultRow) && fresh(resultRow)
 //@   loop 1 invariant famSep(resultRow.Families)
-//@   loop 1 invariant rowsApart(r, resultRow)
+//@   loop 1 invariant rowsApartF(r, resultRow)
+//@   loop 1 invariant rowsApartC(r, resultRow)
+//@   loop 1 invariant rowsApartK(r, resultRow)
 // cuts: the same facts after each helper call (checked, then known)
 //@   callsite getOrCreateFamily ensures rowOK(r) && famSep(r.Families)
 //@   callsite getOrCreateFamily ensures colSep(r)
 //@   callsite getOrCreateFamily ensures rowDesc(r)
 //@   callsite getOrCreateFamily ensures rowOK(resultRow) && famSep(resultRow.Families)
-//@   callsite getOrCreateFamily ensures rowsApart(r, resultRow)
-//@   callsite getOrCreateFamily requires arg0 == resultRow ==> rowsApart(r, resultRow)
+//@   callsite getOrCreateFamily ensures rowsApartF(r, resultRow)
+//@   callsite getOrCreateFamily ensures rowsApartC(r, resultRow)
+//@   callsite getOrCreateFamily ensures rowsApartK(r, resultRow)
+//@   callsite getOrCreateFamily requires arg0 == resultRow ==> rowsApartF(r, resultRow)
+//@   callsite getOrCreateFamily requires arg0 == resultRow ==> rowsApartC(r, resultRow)
+//@   callsite getOrCreateFamily requires arg0 == resultRow ==> rowsApartK(r, resultRow)
 //@   callsite getOrCreateColumn ensures rowOK(r) && famSep(r.Families)
 //@   callsite getOrCreateColumn ensures colSep(r)
 //@   callsite getOrCreateColumn ensures rowDesc(r)
 //@   callsite getOrCreateColumn ensures rowOK(resultRow) && famSep(resultRow.Families)
-//@   callsite getOrCreateColumn ensures rowsApart(r, resultRow)
+//@   callsite getOrCreateColumn ensures rowsApartF(r, resultRow)
+//@   callsite getOrCreateColumn ensures rowsApartC(r, resultRow)
+//@   callsite getOrCreateColumn ensures rowsApartK(r, resultRow)
 // C13, per rule: the cell written for a rule carries max(clock truncated to ms, newest timestamp of that column)
 //@   callsite appendOrReplaceCell requires arg1 != nil && arg1.TimestampMicros == (len(arg0) > 0 ? max(truncMs(now), arg0[0].TimestampMicros) : truncMs(now))
 // C13, per rule (the current rule is req.Rules[idx1+1]; arg0 = cells of its column before the rule, arg1 = the new cell):
